@@ -27,6 +27,7 @@ struct ReadResult {
     std::vector<std::string> blocks;   // canonical dump per block returned
     std::string end_type;               // "eof" (clean end) | exception class name
     std::string end_what;
+    std::vector<std::string> retries;   // outcome of further read_block() calls after the reader had ended with an exception
 };
 
 std::string dump_vblock(const model::VBlock& b) {
@@ -57,6 +58,18 @@ ReadResult read_all(std::istream& is, const std::string& arena_pattern, CDNS::Fi
     } catch (CDNS::CdnsDecoderEnd& e) { r.end_type = "CdnsDecoderEnd"; r.end_what = e.what(); }
     catch (CDNS::CdnsDecoderException& e) { r.end_type = "CdnsDecoderException"; r.end_what = e.what(); }
     catch (std::exception& e) { r.end_type = "std::exception"; r.end_what = e.what(); }
+    // "once the bytes are exhausted the decoder reports end-of-input instead of returning values": also when asked again
+    if (rd && r.end_type != "eof" && r.end_type != "runaway") {
+        for (int k = 0; k < 3; k++) {
+            try {
+                bool eof = false;
+                CDNS::CdnsBlockRead b = rd->read_block(eof);
+                r.retries.push_back(eof ? "eof" : "block");
+            } catch (CDNS::CdnsDecoderEnd&) { r.retries.push_back("CdnsDecoderEnd"); }
+            catch (CDNS::CdnsDecoderException&) { r.retries.push_back("CdnsDecoderException"); }
+            catch (std::exception&) { r.retries.push_back("std::exception"); }
+        }
+    }
     if (rd) rd->~CdnsReader();
     return r;
 }
@@ -233,6 +246,15 @@ void sim::engine_eof(RunCtx& cx) {
         } else if (got.end_type != "CdnsDecoderEnd") {
             cx.violation("C05", "C05/I22/wrong-error-for-truncation" + feat, where + ": ended with " + got.end_type + " '" + got.end_what + "' instead of the end-of-input error");
         }
+        if (!intact) {
+            for (size_t k = 0; k < got.retries.size(); k++) {
+                const std::string& o = got.retries[k];
+                if (o == "block") { cx.violation("C05", "C05/I22/block-returned-after-end-of-input" + feat, where + ": read_block() call " + std::to_string(k + 1) + " after the reader had ended with " + got.end_type + " returned a block"); break; }
+                if (o == "eof") { cx.violation("C05", "C05/I22/clean-end-after-end-of-input" + feat, where + ": read_block() call " + std::to_string(k + 1) + " after the reader had ended with " + got.end_type + " reported a clean end of file"); break; }
+                if (!unreadable && got.end_type == "CdnsDecoderEnd" && o != "CdnsDecoderEnd") { cx.violation("C05", "C05/I22/end-of-input-not-sticky" + feat, where + ": read_block() call " + std::to_string(k + 1) + " after CdnsDecoderEnd ended with " + o); break; }
+            }
+            if (!got.retries.empty()) cx.ctr->add("probe.reader_asked_again_after_end");
+        }
         cx.nontrivial = true;
     }
     cx.state_key = std::to_string(file.size() / W) + (rf.blocks_indef ? "i" : "d") + std::to_string(rf.blocks.size() > 3 ? 3 : rf.blocks.size()) + ",";
@@ -332,6 +354,38 @@ Item make_item(Rng& r) {
     return it;
 }
 
+// the read operation an item was made for, with its ground truth
+bool apply_item(CDNS::CdnsDecoder* dec, const Item& it, std::string& detail) {
+    bool ok = true;
+    switch (it.op) {
+        case R_UNSIGNED: { uint64_t v = dec->read_unsigned(); ok = v == it.u; detail = std::to_string(v) + " != " + std::to_string(it.u); break; }
+        case R_NEGATIVE: { int64_t v = dec->read_negative(); ok = v == it.i; detail = std::to_string(v) + " != " + std::to_string(it.i); break; }
+        case R_INTEGER: { int64_t v = dec->read_integer(); ok = v == it.i; detail = std::to_string(v) + " != " + std::to_string(it.i); break; }
+        case R_BOOL: { bool v = dec->read_bool(); ok = v == it.b; detail = "bool"; break; }
+        case R_BYTES: { std::string v = dec->read_bytestring(); ok = v == it.s; detail = "byte string of " + std::to_string(v.size()) + " vs " + std::to_string(it.s.size()) + " bytes"; break; }
+        case R_TEXT: { std::string v = dec->read_textstring(); ok = v == it.s; detail = "text string of " + std::to_string(v.size()) + " vs " + std::to_string(it.s.size()) + " bytes"; break; }
+        case R_ARRAY_START: { bool ind = false; uint64_t v = dec->read_array_start(ind); ok = ind == it.indef && (ind || v == it.u); detail = "count " + std::to_string(v) + " indef " + std::to_string(ind); break; }
+        case R_MAP_START: { bool ind = false; uint64_t v = dec->read_map_start(ind); ok = ind == it.indef && (ind || v == it.u); detail = "count " + std::to_string(v) + " indef " + std::to_string(ind); break; }
+        case R_BREAK: dec->read_break(); break;
+        case R_ARRAY_CB: {
+            std::vector<uint64_t> got;
+            dec->read_array([&](CDNS::CdnsDecoder& d) { got.push_back(d.read_unsigned()); });
+            ok = got == it.arr;
+            detail = std::to_string(got.size()) + " elements vs " + std::to_string(it.arr.size());
+            break;
+        }
+        case R_SKIP: dec->skip_item(); break;
+        case R_PEEK: {
+            CDNS::CborType t = dec->peek_type();
+            ok = (uint8_t)t == it.peek;
+            detail = "type " + std::to_string((unsigned)t) + " vs " + std::to_string((unsigned)it.peek);
+            if (ok) { CDNS::CborType t2 = dec->peek_type(); ok = t2 == t; detail = "second peek differs"; }   // peeking consumes nothing
+            break;
+        }
+    }
+    return ok;
+}
+
 }  // namespace
 
 void sim::engine_decode(RunCtx& cx) {
@@ -393,34 +447,8 @@ void sim::engine_decode(RunCtx& cx) {
                 if (i & 1) dec->skip_item();
                 else { std::string f = dec->read_bytestring(); if (f.size() != fill_len) cx.violation("C07", "C07/I23/filler-string-length", where + ": " + std::to_string(f.size()) + " != " + std::to_string(fill_len)); }
             }
-            bool ok = true;
             std::string detail;
-            switch (it.op) {
-                case R_UNSIGNED: { uint64_t v = dec->read_unsigned(); ok = v == it.u; detail = std::to_string(v) + " != " + std::to_string(it.u); break; }
-                case R_NEGATIVE: { int64_t v = dec->read_negative(); ok = v == it.i; detail = std::to_string(v) + " != " + std::to_string(it.i); break; }
-                case R_INTEGER: { int64_t v = dec->read_integer(); ok = v == it.i; detail = std::to_string(v) + " != " + std::to_string(it.i); break; }
-                case R_BOOL: { bool v = dec->read_bool(); ok = v == it.b; detail = "bool"; break; }
-                case R_BYTES: { std::string v = dec->read_bytestring(); ok = v == it.s; detail = "byte string of " + std::to_string(v.size()) + " vs " + std::to_string(it.s.size()) + " bytes"; break; }
-                case R_TEXT: { std::string v = dec->read_textstring(); ok = v == it.s; detail = "text string of " + std::to_string(v.size()) + " vs " + std::to_string(it.s.size()) + " bytes"; break; }
-                case R_ARRAY_START: { bool ind = false; uint64_t v = dec->read_array_start(ind); ok = ind == it.indef && (ind || v == it.u); detail = "count " + std::to_string(v) + " indef " + std::to_string(ind); break; }
-                case R_MAP_START: { bool ind = false; uint64_t v = dec->read_map_start(ind); ok = ind == it.indef && (ind || v == it.u); detail = "count " + std::to_string(v) + " indef " + std::to_string(ind); break; }
-                case R_BREAK: dec->read_break(); break;
-                case R_ARRAY_CB: {
-                    std::vector<uint64_t> got;
-                    dec->read_array([&](CDNS::CdnsDecoder& d) { got.push_back(d.read_unsigned()); });
-                    ok = got == it.arr;
-                    detail = std::to_string(got.size()) + " elements vs " + std::to_string(it.arr.size());
-                    break;
-                }
-                case R_SKIP: dec->skip_item(); break;
-                case R_PEEK: {
-                    CDNS::CborType t = dec->peek_type();
-                    ok = (uint8_t)t == it.peek;
-                    detail = "type " + std::to_string((unsigned)t) + " vs " + std::to_string((unsigned)it.peek);
-                    if (ok) { CDNS::CborType t2 = dec->peek_type(); ok = t2 == t; detail = "second peek differs"; }   // peeking consumes nothing
-                    break;
-                }
-            }
+            bool ok = apply_item(dec, it, detail);
             if (!ok) cx.violation("C07", "C07/I23/wrong-value" + feat, where + ": " + detail + " (item " + hex(it.enc, 24) + ")");
             else {
                 if (it.op != R_PEEK) {
@@ -440,6 +468,168 @@ void sim::engine_decode(RunCtx& cx) {
         cx.nontrivial = true;
     }
     cx.state_key = std::string(RN[it.op]) + (it.indef ? "i" : "d") + std::to_string((uint8_t)it.enc[0] >> 5) + ",";
+}
+
+// =================================================================================================
+// C05 at the decoder level: a stream of items is cut at an item boundary or inside an item, the items wholly inside the prefix are
+// read with the operation made for them (directly or after a peek), and then: whatever read / peek / skip operation comes first on
+// the exhausted input must end with CdnsDecoderEnd — and so must the one after it. One item boundary is placed at k*65535 + {-1,0,1}.
+namespace {
+enum { X_UNSIGNED, X_NEGATIVE, X_INTEGER, X_BOOL, X_BYTES, X_TEXT, X_ARRAY_START, X_MAP_START, X_BREAK, X_ARRAY_CB, X_SKIP, X_PEEK, X_N };
+// returns "value" if the operation returned normally, otherwise the class of the exception
+std::string op_on_exhausted_input(CDNS::CdnsDecoder* dec, unsigned op) {
+    try {
+        bool ind = false;
+        switch (op) {
+            case X_UNSIGNED: dec->read_unsigned(); break;
+            case X_NEGATIVE: dec->read_negative(); break;
+            case X_INTEGER: dec->read_integer(); break;
+            case X_BOOL: dec->read_bool(); break;
+            case X_BYTES: dec->read_bytestring(); break;
+            case X_TEXT: dec->read_textstring(); break;
+            case X_ARRAY_START: dec->read_array_start(ind); break;
+            case X_MAP_START: dec->read_map_start(ind); break;
+            case X_BREAK: dec->read_break(); break;
+            case X_ARRAY_CB: dec->read_array([](CDNS::CdnsDecoder& d) { d.skip_item(); }); break;
+            case X_SKIP: dec->skip_item(); break;
+            default: dec->peek_type(); break;
+        }
+    } catch (CDNS::CdnsDecoderEnd&) { return "CdnsDecoderEnd"; }
+    catch (CDNS::CdnsDecoderException& e) { return std::string("CdnsDecoderException(") + e.what() + ")"; }
+    catch (std::exception& e) { return std::string("std::exception(") + e.what() + ")"; }
+    return "value";
+}
+}  // namespace
+
+void sim::engine_eofdec(RunCtx& cx) {
+    static const size_t W = 65535;
+    Rng r(mix_str(cx.seed, "eofdec"));
+    unsigned n = (unsigned)r.range(1, 7);
+    std::vector<Item> items;
+    while (items.size() < n) { Item it = make_item(r); if (it.op != R_PEEK) items.push_back(it); }
+    // one boundary (before item `a`, a == n: the end of the stream) is placed at k*W + d by a filler in front
+    unsigned a = (unsigned)r.below(n + 1);
+    size_t k = r.below(3);
+    long d = (long)r.below(3) - 1;
+    size_t before_a = 0;
+    for (unsigned i = 0; i < a; i++) before_a += items[i].enc.size();
+    std::string buf;
+    size_t lead = 0, fill_len = 0;
+    bool have_filler = false;
+    if (k > 0 && (long)(k * W) + d > (long)before_a + 8) {
+        size_t off = (size_t)((long)(k * W) + d) - before_a;
+        for (lead = 0; lead <= 2; lead += 2) {
+            size_t o = off - lead;
+            size_t head = o - 1 < 24 ? 1 : o - 2 <= 0xff ? 2 : o - 3 <= 0xffff ? 3 : 5;
+            fill_len = o - head;
+            buf.assign(lead, '\0');
+            ref::put_head(buf, 2, fill_len);
+            if (buf.size() == lead + head) { have_filler = true; break; }
+        }
+        if (have_filler) buf.append(fill_len, (char)0xa5); else { buf.clear(); lead = 0; }
+    }
+    size_t filler_end = buf.size();
+    std::vector<size_t> off;   // off[i] = offset of item i; off[n] = end
+    for (auto& it : items) { off.push_back(buf.size()); buf += it.enc; }
+    off.push_back(buf.size());
+    if (have_filler) { cx.tag("boundary-at-window-multiple"); cx.ctr->add("probe.item_boundary_at_window_multiple"); }
+    // ops of the plan: boundary cuts 0..n, then one cut inside each item longer than one byte
+    struct Cut { size_t at; unsigned items_inside; bool mid; };
+    std::vector<Cut> cuts;
+    for (unsigned i = 0; i <= n; i++) cuts.push_back({off[i], i, false});
+    for (unsigned i = 0; i < n; i++) if (items[i].enc.size() > 1) cuts.push_back({off[i] + 1 + (size_t)(mix64(cx.seed, 300 + i) % (items[i].enc.size() - 1)), i, true});
+    cx.n_ops = (unsigned)cuts.size();
+    cx.log.ev("STREAM " + std::to_string(buf.size()) + " " + std::to_string(fnv1a(buf)) + " items " + std::to_string(n));
+    if (cx.describe) {
+        cx.description = "stream of " + std::to_string(buf.size()) + " bytes: " + (have_filler ? "filler of " + std::to_string(filler_end) + " bytes, " : std::string());
+        for (unsigned i = 0; i < n; i++) cx.description += std::string(RN[items[i].op]) + "@" + std::to_string(off[i]) + " ";
+        cx.description += "; cuts:";
+    }
+    static const char* XN[] = {"read_unsigned", "read_negative", "read_integer", "read_bool", "read_bytestring", "read_textstring", "read_array_start", "read_map_start", "read_break", "read_array", "skip_item", "peek_type"};
+    static const char* KN[] = {"stringstream", "simstream-chunked", "ifstream-short-file", "ifstream-eof-fault"};
+    simfs::FS& F = simfs::fs();
+    for (unsigned c = 0; c < cuts.size(); c++) {
+        if (!cx.kept(c)) continue;
+        const Cut& cut = cuts[c];
+        uint64_t m = mix64(cx.seed, 500 + c);
+        unsigned kind = (unsigned)(m % 4);
+        unsigned op1 = (unsigned)((m >> 8) % X_N), op2 = (unsigned)((m >> 16) % X_N);
+        unsigned pat = (unsigned)((m >> 24) % 3);
+        bool peek_first = (m >> 32) & 1;
+        cx.log.ev("CUT " + std::to_string(cut.at) + (cut.mid ? " mid " : " boundary ") + KN[kind] + " then " + XN[op1] + "," + XN[op2]);
+        if (cx.describe) cx.description += " " + std::to_string(cut.at) + (cut.mid ? "(inside an item)" : "") + "/" + KN[kind] + "/then " + XN[op1] + "," + XN[op2];
+        std::string prefix = buf.substr(0, cut.at);
+        F.reset();
+        F.ctr = cx.ctr;
+        std::unique_ptr<std::istream> is;
+        std::unique_ptr<SimStreamBuf> sb;
+        switch (kind) {
+            case 0: is.reset(new std::istringstream(prefix)); break;
+            case 1: sb.reset(new SimStreamBuf(buf, cut.at, (size_t)(1 + (m >> 40) % 9000), m)); is.reset(new std::istream(sb.get())); break;
+            case 2: F.put("/sim/in", prefix); is.reset(new std::ifstream("/sim/in", std::ifstream::binary)); break;
+            default:
+                F.put("/sim/in", buf);
+                F.default_rpolicy.eof_at = (long)cut.at;
+                F.default_rpolicy.max_chunk = 1 + (size_t)((m >> 40) % 70000);
+                F.default_rpolicy.seed = m;
+                F.default_rpolicy.eintr_pm = 50;
+                is.reset(new std::ifstream("/sim/in", std::ifstream::binary));
+                break;
+        }
+        // stale decoder memory: 0xff bytes (a break wherever one looks), small integers, or zeros
+        g_arena2.fill(pat == 0 ? std::string("\xff", 1) : pat == 1 ? std::string("\x01\x02\x03\x18\x2a", 5) : std::string());
+        CDNS::CdnsDecoder* dec = new (g_arena2.mem) CDNS::CdnsDecoder(*is);
+        std::string where = "stream cut at " + std::to_string(cut.at) + " of " + std::to_string(buf.size()) + " bytes (" + (cut.mid ? "inside item " : "before item ") + std::to_string(cut.items_inside) + ") via " + KN[kind];
+        std::string feat = cut.at == 0 ? "/empty-input" : (cut.at % W == 0 ? "/cut-at-window-multiple" : "");
+        bool sound = true;
+        try {
+            if (have_filler) {
+                for (size_t q = 0; q < lead; q++) dec->read_unsigned();
+                if (m & (1ull << 33)) dec->skip_item();
+                else { std::string f = dec->read_bytestring(); if (f.size() != fill_len) { cx.violation("C05", "C05/I21/item-inside-prefix-wrong/filler", where + ": filler string of " + std::to_string(f.size()) + " bytes"); sound = false; } }
+            }
+            for (unsigned i = 0; i < cut.items_inside && sound; i++) {
+                std::string detail;
+                // items at the aligned boundary are read without a preceding peek in half of the runs
+                if (peek_first && items[i].op != R_SKIP) dec->peek_type();
+                if (!apply_item(dec, items[i], detail)) { cx.violation("C05", std::string("C05/I21/item-inside-prefix-wrong/") + RN[items[i].op] + feat, where + ": item " + std::to_string(i) + " at offset " + std::to_string(off[i]) + ": " + detail); sound = false; }
+            }
+        } catch (std::exception& e) {
+            cx.violation("C05", std::string("C05/I21/item-inside-prefix-rejected") + feat, where + ": an item wholly inside the prefix was not decoded: " + e.what());
+            sound = false;
+        }
+        if (sound) {
+            if (cut.mid) {
+                // the cut item itself: its own operation runs out of input
+                std::string o;
+                try { std::string detail; apply_item(dec, items[cut.items_inside], detail); o = "value"; }
+                catch (CDNS::CdnsDecoderEnd&) { o = "CdnsDecoderEnd"; }
+                catch (CDNS::CdnsDecoderException& e) { o = std::string("CdnsDecoderException(") + e.what() + ")"; }
+                catch (std::exception& e) { o = std::string("std::exception(") + e.what() + ")"; }
+                if (o == "value") cx.violation("C05", std::string("C05/I21/value-from-truncated-item/") + RN[items[cut.items_inside].op] + feat, where + ": " + RN[items[cut.items_inside].op] + " returned normally on an item that is cut short");
+                else if (o != "CdnsDecoderEnd") cx.violation("C05", std::string("C05/I21/wrong-error-for-truncated-item/") + RN[items[cut.items_inside].op] + feat, where + ": " + RN[items[cut.items_inside].op] + " ended with " + o);
+                cx.ctr->add("probe.cut_inside_item");
+            } else {
+                std::string o = op_on_exhausted_input(dec, op1);
+                if (o == "value") cx.violation("C05", std::string("C05/I21/value-after-end-of-input/") + XN[op1] + feat, where + ": " + XN[op1] + " as first operation on the exhausted input returned normally");
+                else if (o != "CdnsDecoderEnd") cx.violation("C05", std::string("C05/I21/wrong-error-at-end-of-input/") + XN[op1] + feat, where + ": " + XN[op1] + " as first operation on the exhausted input ended with " + o);
+                cx.ctr->add(std::string("first_op_on_exhausted_input.") + XN[op1]);
+            }
+            // ... and the next operation as well
+            std::string o2 = op_on_exhausted_input(dec, op2);
+            if (o2 == "value") cx.violation("C05", std::string("C05/I21/value-after-end-was-reported/") + XN[op2] + feat, where + ": " + XN[op2] + " returned normally after end of input had been reported");
+            else if (o2 != "CdnsDecoderEnd") cx.violation("C05", std::string("C05/I21/end-of-input-not-sticky/") + XN[op2] + feat, where + ": " + XN[op2] + " after end of input had been reported ended with " + o2);
+        }
+        dec->~CdnsDecoder();
+        is.reset();
+        sb.reset();
+        F.reset();
+        cx.ctr->add(std::string("stream_kind.") + KN[kind]);
+        if (cut.at % W == 0 && cut.at > 0) cx.ctr->add("probe.cut_at_exact_window_multiple");
+        if (cut.at == 0) cx.ctr->add("probe.empty_input");
+        cx.nontrivial = true;
+    }
+    cx.state_key = std::to_string(n) + (have_filler ? "w" + std::to_string(k) : "n") + ",";
 }
 
 // =================================================================================================
